@@ -340,6 +340,42 @@ def check_numpy(ctx, rng, data, rate, width, channels):
             ctx.violation("numpy-second-export-returns-stale-or-modified-values", {"case": case})
 
 
+def check_overwrite_and_dir_placeholders(ctx, rng, tmp, data, rate, width, channels):
+    # (a) writing over an existing, LONGER file replaces it entirely
+    fmt = rng.choice(("raw", "wav", "raw"))
+    path = os.path.join(tmp, f"over.{fmt}")
+    longer = data + rng.randbytes((rng.randint(1, 50)) * width * channels)
+    case = {"op": "overwrite-longer", "format": fmt, "fmt": [rate, width, channels], "old_len": len(longer), "new_len": len(data)}
+    ctx.count("overwrites_of_longer_files")
+    ctx.case(repr(case), True)
+    try:
+        to_file(longer, path, sr=rate, sw=width, ch=channels)
+        if rng.random() < 0.5:
+            to_file(data, path, sr=rate, sw=width, ch=channels)
+        else:
+            AudioRegion(data, rate, width, channels).save(path)
+        got = wav_read(path)[0] if fmt == "wav" else open(path, "rb").read()
+        if got != data:
+            ctx.violation(f"overwritten-{fmt}-file-keeps-old-content", {"case": case, "got_len": len(got)})
+    except Exception as exc:
+        ctx.violation("write-raises:" + type(exc).__name__, {"case": case, "exception": repr(exc)[:200]})
+    # (b) placeholders anywhere in the file name given, directories included
+    start = rng.choice((0.0, 1.5, 2.25))
+    reg = AudioRegion(data, rate, width, channels, start)
+    template = os.path.join(tmp, "det_{start}-{end}", "audio_{duration:.3f}.wav")
+    expected = template.format(start=reg.start, end=reg.end, duration=reg.duration)
+    os.makedirs(os.path.dirname(expected), exist_ok=True)
+    case = {"op": "save-template-with-directory-placeholders", "template": "det_{start}-{end}/audio_{duration:.3f}.wav", "start": start}
+    ctx.count("directory_placeholder_saves")
+    try:
+        ret = reg.save(template)
+        if ret != expected or not os.path.exists(expected):
+            ctx.violation("save-name-differs-from-template", {"case": case, "returned": str(ret)[-60:], "expected": expected[-60:]})
+    except Exception as exc:
+        ctx.violation("save-raises:" + type(exc).__name__, {"case": case, "exception": repr(exc)[:200]})
+    shutil.rmtree(os.path.dirname(expected), ignore_errors=True)
+
+
 def check_large_skip(ctx, rng, tmp):
     """more than 2**20 samples skipped, several channels."""
     rate, width, channels = rng.choice((16000, 44100)), 1, rng.choice((2, 3))
@@ -415,14 +451,16 @@ def run_shard(ctx, upto=None):
                 lim = 2 ** (8 * width - 1)
                 vals = [max(-lim, min(lim - 1, rng.choice((-lim, lim - 1, 0, -1, 1, 256, -256, 255, 127, -128)))) for _ in range(channels * rng.randint(1, 6))]
                 data = struct.pack("<%d%s" % (len(vals), E.FMT[width]), *vals)
-            for fn in (check_roundtrip, check_read, check_template_and_exists, check_load_slice, check_load_slice, check_write_containers):
+            for fn in (check_roundtrip, check_read, check_template_and_exists, check_load_slice, check_load_slice, check_write_containers,
+                       check_overwrite_and_dir_placeholders):
                 try:
                     fn(ctx, rng, tmp, data, rate, width, channels)
                 except Exception as exc:
                     ctx.violation(f"harness-exception-in-{fn.__name__}:{type(exc).__name__}", {"exception": repr(exc)[:300]})
             check_numpy(ctx, rng, data, rate, width, channels)
             for f in os.listdir(tmp):
-                os.unlink(os.path.join(tmp, f))
+                p_ = os.path.join(tmp, f)
+                shutil.rmtree(p_) if os.path.isdir(p_) else os.unlink(p_)
             if (i & 7) == 0 and ctx.out_of_time():
                 break
     finally:
@@ -443,5 +481,5 @@ def inconclusive(merged, tier):
     c = merged["counters"]
     need = ["writes_to_file", "writes_save", "writes_wav", "writes_raw", "reads_load", "reads_from_file", "reads_lazy", "reads_eager",
             "roundtrips", "template_saves", "exists_ok_false_checks", "overwrites_ok", "load_slices", "load_slices_with_empty_result",
-            "load_slices_skip_beyond_end", "numpy_exports", "numpy_values_checked", "numpy_reexports_checked", "load_slices_large_skip", "writes_from_other_containers"]
+            "load_slices_skip_beyond_end", "numpy_exports", "numpy_values_checked", "numpy_reexports_checked", "load_slices_large_skip", "writes_from_other_containers", "overwrites_of_longer_files", "directory_placeholder_saves"]
     return [f"monitor never observed {k}" for k in need if c.get(k, 0) == 0]
